@@ -139,9 +139,26 @@ func VerifHarness_C05_pair() {
 	verifAssume(a.r.s.IsLoggedOn() && b.r.s.IsLoggedOn())
 
 	K := verifBound(4, 5)
+	timerUsed := false
 	for k := 0; k < K; k++ {
 		up := a.r.s.IsConnected() && b.r.s.IsConnected()
-		switch verifConc(ndInt("event", 0, 6)) {
+		switch verifConc(ndInt("event", 0, 6+verifTier())) {
+		case 7:
+			// thorough: one timer expiry somewhere in the history (idle interval or silent peer, on either side)
+			verifCase("timer")
+			verifAssume(!timerUsed)
+			timerUsed = true
+			s := a
+			if ndBool("timer-on-b") {
+				s = b
+			}
+			verifAssume(s.r.s.IsConnected())
+			if ndBool("peer-timeout") {
+				s.r.s.Timeout(s.r.s, internal.PeerTimeout)
+			} else {
+				s.r.s.Timeout(s.r.s, internal.NeedHeartbeat)
+			}
+			s.collect()
 		case 0:
 			verifCase("a-sends")
 			verifAssume(a.r.s.IsLoggedOn())
